@@ -19,6 +19,7 @@ package main
 
 import (
 	"fmt"
+	"go/ast"
 	"go/token"
 	"go/types"
 	"sort"
@@ -155,6 +156,21 @@ func (e *Engine) evalRule(r *StructRule) []*Obligation {
 				continue
 			}
 			ok, msg := goCtxFlow(fn, from)
+			out = append(out, e.structObl(r, fnk, ok, msg))
+		}
+		return out
+	case "select_arms":
+		// select_arms Func [done=1] [recv=var,...] : every blocking select (and every bare channel
+		// send/receive) in Func can be woken: each select has a receive arm on a context's Done()
+		// channel (done=1) and on each listed channel variable; no bare blocking channel operation.
+		var out []*Obligation
+		for _, fnk := range pos {
+			fn := e.funcs[r.Pkg+"::"+fnk]
+			if fn == nil {
+				out = append(out, e.structObl(r, fnk, false, "function not found"))
+				continue
+			}
+			ok, msg := selectArms(fn, len(ruleOpt(r, "done")) > 0, ruleOpt(r, "recv"))
 			out = append(out, e.structObl(r, fnk, ok, msg))
 		}
 		return out
@@ -574,25 +590,59 @@ func closureImmutable(fn *ssa.Function) (bool, string) {
 	}
 	par := fn.Parent()
 	if par != nil {
+		// the cells bound to the literal, and where it is made
+		bound := map[ssa.Value]bool{}
+		var makes []*ssa.MakeClosure
 		for _, b := range par.Blocks {
-			seenMake := false
+			for _, in := range b.Instrs {
+				if mc, ok := in.(*ssa.MakeClosure); ok && mc.Fn == fn {
+					makes = append(makes, mc)
+					for _, bv := range mc.Bindings {
+						bound[bv] = true
+					}
+				}
+			}
+		}
+		// blocks reachable from a block that makes the closure
+		after := map[*ssa.BasicBlock]bool{}
+		var walk func(b *ssa.BasicBlock)
+		walk = func(b *ssa.BasicBlock) {
+			for _, s := range b.Succs {
+				if !after[s] {
+					after[s] = true
+					walk(s)
+				}
+			}
+		}
+		for _, mc := range makes {
+			walk(mc.Block())
+		}
+		for _, b := range par.Blocks {
+			seenMake := after[b]
 			for _, in := range b.Instrs {
 				if mc, ok := in.(*ssa.MakeClosure); ok && mc.Fn == fn {
 					seenMake = true
 					continue
 				}
-				if st, ok := in.(*ssa.Store); ok && seenMake {
-					for _, a := range fn.FreeVars {
-						_ = a
+				if st, ok := in.(*ssa.Store); ok && seenMake && bound[st.Addr] {
+					return false, "the enclosing function assigns a captured variable after making the closure"
+				}
+			}
+		}
+		// sibling literals that capture the same cell and assign it
+		for _, sib := range par.AnonFuncs {
+			if sib == fn {
+				continue
+			}
+			for _, b := range par.Blocks {
+				for _, in := range b.Instrs {
+					mc, ok := in.(*ssa.MakeClosure)
+					if !ok || mc.Fn != sib {
+						continue
 					}
-					// a store to a cell captured by reference after the closure exists
-					for i := range fn.FreeVars {
-						for _, b2 := range par.Blocks {
-							for _, in2 := range b2.Instrs {
-								if mc, ok := in2.(*ssa.MakeClosure); ok && mc.Fn == fn && i < len(mc.Bindings) && mc.Bindings[i] == st.Addr {
-									return false, "the enclosing function assigns a captured variable after making the closure"
-								}
-							}
+					for i, bv := range mc.Bindings {
+						if bound[bv] && i < len(sib.FreeVars) && !freeVarReadOnly(sib.FreeVars[i], map[ssa.Value]bool{}) {
+							return false, "another function literal assigns a captured variable"
 						}
 					}
 				}
@@ -746,4 +796,73 @@ func goCtxFlow(fn *ssa.Function, from string) (bool, string) {
 		}
 	}
 	return true, fmt.Sprintf("%d context arguments of started goroutines/tasks, all derived from the context this function controls", n)
+}
+
+func isDoneChan(v ssa.Value) bool {
+	c, ok := v.(*ssa.Call)
+	if !ok {
+		return false
+	}
+	if c.Call.IsInvoke() && c.Call.Method.Name() == "Done" && isContextType(c.Call.Value.Type()) {
+		return true
+	}
+	return false
+}
+
+func valueVarName(fn *ssa.Function, v ssa.Value) string {
+	for _, b := range fn.Blocks {
+		for _, in := range b.Instrs {
+			if d, ok := in.(*ssa.DebugRef); ok && d.X == v {
+				if id, ok := d.Expr.(*ast.Ident); ok {
+					return id.Name
+				}
+			}
+		}
+	}
+	return ""
+}
+
+func selectArms(fn *ssa.Function, needDone bool, recv []string) (bool, string) {
+	n := 0
+	for _, b := range fn.Blocks {
+		for _, in := range b.Instrs {
+			switch x := in.(type) {
+			case *ssa.Select:
+				if !x.Blocking {
+					continue
+				}
+				n++
+				p := fn.Prog.Fset.Position(x.Pos())
+				haveDone := false
+				have := map[string]bool{}
+				for _, st := range x.States {
+					if st.Dir == types.RecvOnly {
+						if isDoneChan(st.Chan) {
+							haveDone = true
+						}
+						if nm := valueVarName(fn, st.Chan); nm != "" {
+							have[nm] = true
+						}
+					}
+				}
+				if needDone && !haveDone {
+					return false, fmt.Sprintf("line %d: a blocking select without a <-ctx.Done() arm", p.Line)
+				}
+				for _, rv := range recv {
+					if !have[rv] {
+						return false, fmt.Sprintf("line %d: a blocking select without a receive arm on %s: the waiter is not woken when that channel is served", p.Line, rv)
+					}
+				}
+			case *ssa.Send:
+				p := fn.Prog.Fset.Position(x.Pos())
+				return false, fmt.Sprintf("line %d: bare (unselectable) channel send", p.Line)
+			case *ssa.UnOp:
+				if x.Op == token.ARROW {
+					p := fn.Prog.Fset.Position(x.Pos())
+					return false, fmt.Sprintf("line %d: bare (unselectable) channel receive", p.Line)
+				}
+			}
+		}
+	}
+	return true, fmt.Sprintf("%d blocking selects, each with the required wake-up arms; no bare channel operation", n)
 }
